@@ -65,10 +65,14 @@ def queues(maxn, maxd=3):
 
 
 class Harness(object):
-    def __init__(self, kind):
+    def __init__(self, kind, own=False):
+        """own: the application supplies the transmit queue (`txPkts=`) and keeps working through its own reference to it"""
+        import collections
         from ioflo.aio.proto import stacking
         from ioflo.aio.udp import udping
         self.kind = kind
+        self.own = collections.deque() if own else None
+        kwq = {"txPkts": self.own} if own else {}
         self.state = {}          # dest -> state in this pass
         self.count = {}          # dest -> sends attempted in this pass
         self.code = errno.ECONNREFUSED
@@ -76,10 +80,10 @@ class Harness(object):
         self.npass = 0
         if kind == "GramStack":
             self.dbl = FakeUdpHandler(decide=self.decide)
-            self.stack = stacking.GramStack(handler=self.dbl, name="g")
+            self.stack = stacking.GramStack(handler=self.dbl, name="g", **kwq)
         else:
             h = udping.SocketUdpNb(ha=("127.0.0.1", 0))
-            self.stack = stacking.UdpStack(handler=h, name="u", ha=("127.0.0.1", 0))
+            self.stack = stacking.UdpStack(handler=h, name="u", ha=("127.0.0.1", 0), **kwq)
             h.ss.close()
             self.dbl = FakeSocket(sockname=h.ha)
             self.dbl.decide_sendto = self.decide
@@ -104,16 +108,19 @@ def tag(i, d):
     return b"pkt-%02d-to-%d" % (i, d)
 
 
-def run_case(ctx, kind, mode, queue, pattern, later=None, code=errno.ECONNREFUSED, empty=None):
+def run_case(ctx, kind, mode, queue, pattern, later=None, code=errno.ECONNREFUSED, empty=None, own=False):
     """pattern: tuple per pass of a state per destination (HEALTHY, FAILn, BLIPn);
     later: optional {pass index: [dest, ...]} packets queued just before that pass"""
     from ioflo.aio.proto import packeting
-    H = Harness(kind)
+    H = Harness(kind, own=own)
     H.code = code
+    if own:
+        ctx.hit("cases_with_the_callers_own_queue")
     st = H.stack
     pending = {d: [] for d in range(3)}     # model: per destination, tags not yet accepted, queue order
     n_tag = [0]
     allq = []
+    scratch = bytearray()
 
     def enqueue(d):
         t = tag(n_tag[0], d)
@@ -121,7 +128,21 @@ def run_case(ctx, kind, mode, queue, pattern, later=None, code=errno.ECONNREFUSE
             t = b""          # a packet without payload (a heartbeat): the socket accepts it and reports 0 bytes sent
             ctx.hit("empty_payload_packets")
         n_tag[0] += 1
-        st.transmit(packeting.Packet(stack=st, packed=t), DESTS[d])
+        if n_tag[0] % 3 == 1:
+            # built in the application's scratch buffer, which it overwrites as soon as the packet is queued
+            scratch[:] = t
+            pkt = packeting.Packet(stack=st, packed=scratch)
+            st.transmit(pkt, DESTS[d])
+            scratch[:] = b"#" * len(t)
+            ctx.hit("packets_built_in_a_reused_buffer")
+        elif own and n_tag[0] % 2 == 0:
+            # ... queued by the application through its own reference to the queue it supplied
+            pkt = packeting.Packet(stack=st, packed=t)
+            pkt.pack()
+            H.own.append((pkt, DESTS[d]))
+            ctx.hit("packets_appended_to_the_callers_own_queue")
+        else:
+            st.transmit(packeting.Packet(stack=st, packed=t), DESTS[d])
         pending[d].append(t)
         allq.append((t, d))
 
@@ -219,7 +240,7 @@ def run_case(ctx, kind, mode, queue, pattern, later=None, code=errno.ECONNREFUSE
                   "%s: accepted datagrams are not the queued packets once each" % kind,
                   wit({"accepted": [t.decode() for t in acc]}))
     finally:
-        ctx.case((kind, mode, queue, pattern, sorted(later.items()) if later else None, code, empty), nontrivial=failed_any)
+        ctx.case((kind, mode, queue, pattern, sorted(later.items()) if later else None, code, empty, own), nontrivial=failed_any)
         if failed_any:
             ctx.hit("failure_with_others_pending")
         H.close()
@@ -274,12 +295,16 @@ def worker(ctx, job):
         run_case(ctx, kind, rng.choice(("all", "all", "once")), tuple(queue), pattern, later=later or None,
                  code=rng.choice(ERRNOS), empty=rng.randrange(len(queue)) if rng.random() < 0.2 else None)
         ctx.hit("random_cases")
+        if later and r % 2 == 0:
+            run_case(ctx, kind, "all", tuple(queue), pattern, later=later, code=errno.ECONNREFUSED, own=True)
         if r == 0 and k == 0:
             ctx.sample({"class": kind, "queue_destinations": queue, "failure_pattern_per_pass": [list(p) for p in pattern],
                         "queued_later": {str(a): b for a, b in later.items()}})
 
 
 def run(ctx):
+    ctx.floor("packets_built_in_a_reused_buffer", 1000)
+    ctx.floor("packets_appended_to_the_callers_own_queue", ctx.pick(100, 5000))
     N = ctx.pick(5, 6)
     alphabets = ctx.pick([[HEALTHY, BLIP0, BLIP1], [HEALTHY, BLIP0, FAIL0]],
                          [[HEALTHY, BLIP0, BLIP1, FAIL0, FAIL1], [HEALTHY, BLIP0, FAIL0]])
